@@ -216,6 +216,33 @@ def feedeleg_family(rng, prefix):
     return out
 
 
+def refused_family(rng, prefix):
+    """node A executes a sibling X of block k that it then REFUSES (wrong state root in the header,
+    or a failing transaction at the end; chain.executeBlock calls cs.Update(bestBlock), i.e. the real
+    dpos.Status.Update rollback branch, which reloads the voting power rank), optionally restarts,
+    and then executes the valid block; node B (the producer) never saw X.  Blocks hold stakes, BP
+    ballots with ties, parameter votes; fork versions 2..5."""
+    out = []
+    for ver in (2, 3, 4, 5):
+        cs = [G.cand(70 + i).hex() for i in range(3)]
+        blocks = [
+            {"ts": 1000, "txs": [{"from": i, "nonce": 1, "kind": "stake", "amt": str(rng.choice([S, 2 * S]))} for i in range(3)]},
+            {"ts": 2000, "txs": [{"from": 0, "nonce": 2, "kind": "votebp", "cands": [cs[0], cs[1]]},
+                                 {"from": 1, "nonce": 2, "kind": "votebp", "cands": [cs[1]]},
+                                 {"from": 2, "nonce": 2, "kind": "votedao", "id": "BPCOUNT", "val": ["13"]},
+                                 {"from": 3, "nonce": 1, "kind": "transfer", "to": 0, "amt": "5"}]},
+            {"ts": 3000, "txs": [{"from": 3, "nonce": 2, "kind": "stake", "amt": str(S)},
+                                 {"from": 2, "nonce": 3, "kind": "votebp", "cands": [cs[2], cs[0]]},
+                                 {"from": 3, "nonce": 3, "kind": "transfer", "to": 1, "amt": "7"}]},
+            {"ts": 4000, "txs": [{"from": 3, "nonce": 4, "kind": "votebp", "cands": [cs[2]]}]}]
+        for k in (1, 2, 3, 4):
+            for kind in ("root", "tx", "root+restart"):
+                out.append({"id": "%s-v%d-b%d-%s" % (prefix, ver, k, kind), "ver": ver, "naccts": 5, "bal": str(BAL), "coinbase": 4,
+                            "public": ver % 2 == 0, "blocks": [dict(b, txs=[dict(t) for t in b["txs"]]) for b in blocks],
+                            "refuse_before": k, "refuse_kind": kind, "_refuse": True})
+    return out
+
+
 def deadline_family(rng, prefix, ver=None, public=None):
     """the block-generation deadline (the context GatherTXs consults in checkBGTimeout) expires at
     every position of the candidate list of one block: already expired when gathering starts (-1)
